@@ -91,4 +91,54 @@ theorem interp_bounds (t : Tensor Rat) (cs : List Rat) (L U : Rat)
         exact add_le_add (mul_le_mul_of_nonneg_left ha.2 h1w) (mul_le_mul_of_nonneg_left hb'.2 hw.1)
 
 #print axioms interp_bounds
+
+/-- **monotone in the stored values inside the grid**: the weights are non-negative there, so a pointwise larger array gives
+a larger value (outside the grid one weight is negative and this fails) -/
+theorem interp_mono (t t' : Tensor Rat) (cs : List Rat)
+    (hshape : t'.shape = t.shape)
+    (hlen : cs.length = t.shape.length)
+    (h2 : ∀ n ∈ t.shape, 2 ≤ n)
+    (hin : ∀ p ∈ cs.zip t.shape, 0 ≤ p.1 ∧ p.1 ≤ (p.2 : Rat) - 1)
+    (hle : ∀ idx, InBounds t.shape idx → t.get idx ≤ t'.get idx) :
+    interp t cs ≤ interp t' cs := by
+  induction cs generalizing t t' with
+  | nil =>
+    obtain ⟨shape, get⟩ := t
+    obtain ⟨shape', get'⟩ := t'
+    cases shape with
+    | nil => simpa [interp, InBounds] using hle []
+    | cons n s => simp at hlen
+  | cons c cs ih =>
+    obtain ⟨shape, get⟩ := t
+    obtain ⟨shape', get'⟩ := t'
+    simp only at hshape
+    subst hshape
+    cases shape' with
+    | nil => simp at hlen
+    | cons n s =>
+      have hn2 : 2 ≤ n := h2 n (by simp)
+      have hc := hin (c, n) (by simp)
+      have hw := weight_mem_unit c n hn2 hc.1 hc.2
+      have hlo := lowerIdx'_le c n hn2
+      simp only [interp, List.headD_cons]
+      have hslice : ∀ i, i < n →
+          interp (Tensor.slice ⟨n :: s, get⟩ i) cs ≤ interp (Tensor.slice ⟨n :: s, get'⟩ i) cs := by
+        intro i hi
+        apply ih
+        · simp [Tensor.slice]
+        · simpa [Tensor.slice] using hlen
+        · intro k hk; exact h2 k (by simp [Tensor.slice] at hk; simp [hk])
+        · intro p hp
+          apply hin p
+          simp only [Tensor.slice, List.tail_cons] at hp
+          simp [hp]
+        · intro idx hidx
+          simp only [Tensor.slice, List.tail_cons] at hidx ⊢
+          exact hle (i :: idx) ⟨hi, hidx⟩
+      have ha := hslice (lowerIdx' c n) (by omega)
+      have hb' := hslice (lowerIdx' c n + 1) hlo
+      have h1w : 0 ≤ 1 - (c - (lowerIdx' c n : Rat)) := by linarith [hw.2]
+      exact add_le_add (mul_le_mul_of_nonneg_left ha h1w) (mul_le_mul_of_nonneg_left hb' hw.1)
+
+#print axioms interp_mono
 end Lcm
